@@ -295,6 +295,7 @@ func (e *Exec) evalConversion(st *State, call *ast.CallExpr, to types.Type) Term
 	case v.Sort == ts:
 		return v
 	case v.Sort == SInt && ts == SReal:
+		e.noteFloatModel()
 		return Term{"(to_real " + v.S + ")", SReal}
 	case v.Sort == SReal && ts == SInt:
 		// truncation toward zero
